@@ -34,9 +34,11 @@ RULE = (
     'whose expected answer is non-empty, or a refusal; distinct = distinct case'
 )
 ASSUMPTIONS = [
-    'generated database: 44 flights / ~900 instances over 30 airports, 8 countries, 3 continents built by '
-    'OAGDatabase.add + index in a temp dir; shipped database tests/data/missions/oag-2019-test-subset.sqlite '
-    '(copied to the temp dir, never written)',
+    'generated databases: 44 flights / ~900 instances (2019) and 9 flights / ~90 instances spanning New Year 2019/2020, '
+    'both built in one process (2019 first) by OAGDatabase.add + index in a temp dir over 30 airports, 8 countries, 3 '
+    'continents; their expected content is computed from the raw schedule rows alone (own calendar expansion with '
+    'zoneinfo, miles x 1.609344, own country/continent table) and database ids are used for identity only; shipped '
+    'database tests/data/missions/oag-2019-test-subset.sqlite (copied, never written) is judged against its own tables',
     'every-nth-day selection is judged on the UTC day number of the departure timestamp (never on the stored day column), '
     'anchored at start_date when given, otherwise at the first UTC departure day in the database; spatial conditions are '
     'judged on the airports table (the shipped file\'s spatial index is checked against it at start-up)',
@@ -81,16 +83,22 @@ def _ensure():
     d = tempfile.mkdtemp(prefix='vf_c14_')
     atexit.register(_cleanup, os.getpid(), d)
     gen = os.path.join(d, 'generated.sqlite')
+    gen2 = os.path.join(d, 'generated_second_year.sqlite')
+    acsv = env.HARNESS_DATA / 'C14_airports' / 'airports' / 'airports.csv'
     try:
-        n, acc = ref.build_generated_db(gen, env.HARNESS_DATA / 'C14_airports' / 'airports' / 'airports.csv')
+        # both data years are expanded in this one process, 2019 first
+        acc = ref.build_generated_db(gen, acsv)
+        acc2 = ref.build_generated_db(gen2, acsv, ref.GEN2_FLIGHTS, 2020)
     except Exception as e:  # the importer is not the subject of this property
         raise HarnessError(f'could not build the generated database through the importer: {type(e).__name__}: {e}') from e
     ship = os.path.join(d, 'shipped.sqlite')
     shutil.copyfile(env.TEST_DATA / 'missions' / 'oag-2019-test-subset.sqlite', ship)
     os.chmod(ship, 0o444)
-    tabs = {'gen': ref.Tables(gen), 'ship': ref.Tables(ship)}
-    if acc < 30 or len(tabs['gen'].inst) < 400:
-        raise HarnessError(f'generated database too small: {acc}/{n} flights, {len(tabs["gen"].inst)} instances')
+    # generated databases are judged against the raw schedule rows (own expansion / conversion /
+    # country table), the shipped file against its own tables
+    tabs = {'gen': ref.SourceTables(gen, acc, acsv), 'gen2': ref.SourceTables(gen2, acc2, acsv), 'ship': ref.Tables(ship)}
+    if len(acc) < 30 or len(tabs['gen'].inst) < 400 or len(acc2) < 6:
+        raise HarnessError(f'generated databases too small: {len(acc)} + {len(acc2)} flights accepted, {len(tabs["gen"].inst)} instances')
     # Only the shipped file (static test data) is checked against the oracle's assumptions.  The
     # generated database is an output of the code under test: if the importer writes an
     # inconsistent day column or spatial index there, the queries that rely on it disagree with
@@ -98,7 +106,7 @@ def _ensure():
     bad = tabs['ship'].assumptions_violated()
     if bad:
         raise HarnessError(f'shipped database: {bad}')
-    _S.update(paths={'gen': gen, 'ship': ship}, tabs=tabs, dir=d)
+    _S.update(paths={'gen': gen, 'gen2': gen2, 'ship': ship}, tabs=tabs, dir=d)
 
 
 def _dbs():
@@ -239,7 +247,7 @@ def sublattices(tier, seed):
     def add(name, axes, cases):
         subs.append({'name': name, 'axes': axes, 'cases': cases})
 
-    for db in ('gen', 'ship'):
+    for db in ('gen', 'ship', 'gen2'):
         fx = facts(db, seed)
         legal, illegal = spatial_alphabets(fx)
         sp = fx['sp']
@@ -319,6 +327,22 @@ def sublattices(tier, seed):
                 for n in nths for a in fx['start'] for b in fx['end'] for f in ff for l, o in lo
             ],
         )  # fmt: skip
+
+        # S10 every country and continent code of the database (incl. 'NA') x role x kind
+        tabx = _S['tabs'][db]
+        ccodes = sorted({a['country'] for a in tabx.airports.values()})
+        tcodes = sorted({a['continent'] for a in tabx.airports.values() if a['continent']})
+        add(
+            f'{db}: every country / continent code x role x kind',
+            {'country': ccodes, 'continent': tcodes, 'role': list(ref.SPATIAL_ROLES), 'kind': kinds3},
+            [
+                _case(db, k, {role + fld: code}, limit=lim)
+                for fld, codes in (('country', ccodes), ('continent', tcodes)) for code in codes
+                for role in ref.SPATIAL_ROLES for k, lim in kinds3
+            ],
+        )  # fmt: skip
+        if db == 'gen2':
+            continue  # the second-year database gets the sub-lattices above only
 
         # S4 limit/offset x dates x filter x every_nth
         st = fx['start'] if thorough else [None, fx['F'], fx['I'], fx['L']]
